@@ -4,6 +4,7 @@ package main
 // Flush stitches and writes exactly once, errors stick.
 
 import (
+	"fmt"
 	"go/token"
 	"go/types"
 
@@ -78,7 +79,80 @@ func (fa *FA) externalAllocFacts(c *ssa.Call) {
 		ln, cpv := fa.expand(args[0]), fa.expand(args[1])
 		la.Facts = append(la.Facts, ineqLE(l, ln), ineqLE(ln, l))
 		A.at(fa.lenAtom(c, aCap)).Facts = append(A.at(fa.lenAtom(c, aCap)).Facts, ineqLE(cp, cpv), ineqLE(cpv, cp))
+	default:
+		// a thin wrapper: every return hands back an allocator call on the wrapper's own parameters
+		if li, ci, ok := allocWrapper(cal, 0); ok {
+			size := fa.expand(args[li])
+			la.Facts = append(la.Facts, ineqLE(l, size), ineqLE(size, l), ineqLE(size, cp))
+			if ci >= 0 {
+				A.at(fa.lenAtom(c, aCap)).Facts = append(A.at(fa.lenAtom(c, aCap)).Facts, ineqLE(fa.expand(args[ci]), cp))
+			}
+		}
 	}
+}
+
+// allocWrapper recognises a repository function all of whose returns are direct
+// calls of mcache.Malloc / dirtmake.Bytes (or of another such wrapper) on its own
+// parameters; it reports which parameter is the length and which the capacity
+// lower bound (-1 if none is common to all returns).
+func allocWrapper(fn *ssa.Function, depth int) (lenIdx, capIdx int, ok bool) {
+	if fn == nil || fn.Blocks == nil || depth > 2 || !inRepo(fn) {
+		return 0, 0, false
+	}
+	rets := returnsOf(fn)
+	if len(rets) == 0 || len(rets[0].Results) != 1 {
+		return 0, 0, false
+	}
+	paramIdx := func(v ssa.Value) int {
+		for i, p := range fn.Params {
+			if ssa.Value(p) == v {
+				return i
+			}
+		}
+		return -1
+	}
+	lenIdx, capIdx = -2, -2
+	for _, ret := range rets {
+		c := asCall(ret.Results[0])
+		if c == nil {
+			return 0, 0, false
+		}
+		cal := c.Common().StaticCallee()
+		args := c.Common().Args
+		li, ci := -1, -1
+		switch {
+		case cal != nil && fnPkgPath(cal) == pkgMcache && cal.Name() == "Malloc":
+			li = paramIdx(args[0])
+			if cv := mallocCapArg(c); cv != nil {
+				ci = paramIdx(cv)
+			}
+		case cal != nil && fnPkgPath(cal) == pkgDirtmake && cal.Name() == "Bytes":
+			li, ci = paramIdx(args[0]), paramIdx(args[1])
+		default:
+			wl, wc, wok := allocWrapper(cal, depth+1)
+			if !wok {
+				return 0, 0, false
+			}
+			li = paramIdx(args[wl])
+			if wc >= 0 {
+				ci = paramIdx(args[wc])
+			}
+		}
+		if li < 0 {
+			return 0, 0, false
+		}
+		if lenIdx == -2 {
+			lenIdx, capIdx = li, ci
+		} else {
+			if lenIdx != li {
+				return 0, 0, false
+			}
+			if capIdx != ci {
+				capIdx = -1
+			}
+		}
+	}
+	return lenIdx, capIdx, true
 }
 
 func checkC05(P *Program, r *Result, tier string) {
@@ -182,32 +256,61 @@ func checkC05(P *Program, r *Result, tier string) {
 			}
 		}
 		n := fa.expand(fn.Params[1])
+		key := "P:" + fn.Params[0].Name() + ".buf"
 		for _, ret := range returnsOf(fn) {
-			// tail position after delegating to another acquire routine with the same n
-			deleg := false
-			for _, c := range callsIn(fn) {
-				cc, ok := c.(*ssa.Call)
-				if !ok || cc.Block() != ret.Block() {
-					continue
+			// one case per way of reaching the return (a join is split into its incoming edges)
+			type rcase struct {
+				ver  *MemVer
+				blk  *ssa.BasicBlock
+				ctx  *pctx
+				what string
+			}
+			var cases []rcase
+			ver := fa.mem.versionAt(ret, key)
+			if ver != nil && ver.Kind == mPhi && ver.Block == ret.Block() {
+				for i, p := range ret.Block().Preds {
+					e := &edgeFacts{}
+					fa.edgeCond(p, ret.Block(), e)
+					cases = append(cases, rcase{fa.mem.phiIncoming(ver, i), p, rootCtx.with(e.ineq, e.neq), fmt.Sprintf(" (reached from block %d)", p.Index)})
 				}
-				for _, a := range acquires {
-					if cc.Common().StaticCallee() == a && len(cc.Common().Args) == 2 && cc.Common().Args[1] == ssa.Value(fn.Params[1]) && cc.Common().Args[0] == ssa.Value(fn.Params[0]) {
-						deleg = true
-						for _, in := range ret.Block().Instrs[instrIndex(cc)+1:] {
-							if _, isSt := in.(*ssa.Store); isSt {
-								deleg = false
+			} else if len(ret.Block().Preds) > 1 && len(ret.Block().Instrs) == 1 {
+				for _, p := range ret.Block().Preds {
+					e := &edgeFacts{}
+					fa.edgeCond(p, ret.Block(), e)
+					cases = append(cases, rcase{ver, p, rootCtx.with(e.ineq, e.neq), fmt.Sprintf(" (reached from block %d)", p.Index)})
+				}
+			} else {
+				cases = append(cases, rcase{ver, ret.Block(), rootCtx, ""})
+			}
+			for _, rc := range cases {
+				// the buffer was last set by another acquire routine called with the same n: its post-condition carries over
+				if rc.ver != nil && rc.ver.Kind == mClobber {
+					if cc, ok := rc.ver.Instr.(*ssa.Call); ok {
+						deleg := false
+						for _, a := range acquires {
+							if cc.Common().StaticCallee() == a && len(cc.Common().Args) == 2 && cc.Common().Args[1] == ssa.Value(fn.Params[1]) && cc.Common().Args[0] == ssa.Value(fn.Params[0]) {
+								deleg = true
+							}
+						}
+						if deleg {
+							r.add("ROOM", shortName(fn), "return", "delegates to the slow path with the same n (its post-condition carries over)", P.pos(instrPos(ret)), true, "")
+							continue
+						}
+					}
+				}
+				var cur *SliceDesc
+				if rc.ver != nil {
+					for _, b := range fn.Blocks {
+						for _, x := range b.Instrs {
+							if ld, ok := x.(*ssa.UnOp); ok && ld.Op == token.MUL && recvFieldOf(fn, ld.X) == "buf" && cur == nil {
+								cur = fa.cellSlice(rc.ver, ld)
 							}
 						}
 					}
 				}
+				ok := cur != nil && cur.Cap != nil && fa.prove(ineqLE(cur.Len.add(n), cur.Cap), rc.blk, rc.ctx)
+				r.add("ROOM", shortName(fn), "return", "len(buf)+n ≤ cap(buf) on return"+rc.what, P.pos(instrPos(ret)), ok, "")
 			}
-			if deleg {
-				r.add("ROOM", shortName(fn), "return", "delegates to the slow path with the same n (its post-condition carries over)", P.pos(instrPos(ret)), true, "")
-				continue
-			}
-			cur := cellSliceAt(fa, ret, "buf")
-			ok := cur != nil && cur.Cap != nil && fa.prove(ineqLE(cur.Len.add(n), cur.Cap), ret.Block(), rootCtx)
-			r.add("ROOM", shortName(fn), "return", "len(buf)+n ≤ cap(buf) on return", P.pos(instrPos(ret)), ok, "")
 		}
 		for _, st := range storesTo(fn, "buf") {
 			cur := cellSliceAt(fa, st, "buf")
@@ -414,28 +517,19 @@ func checkC05(P *Program, r *Result, tier string) {
 		r.add("PUBLISH", shortName(fn), "return", "reports (len(p), nil)", P.pos(fn.Pos()), retOK, "")
 	}
 	if fn := P.Func(relBufiox, "NewBytesWriter"); r.require("bufiox.NewBytesWriter", fn != nil) {
-		ok := false
-		for _, c := range callsIn(fn) {
-			if cal := c.Common().StaticCallee(); cal != nil && cal.Name() == "reset" {
-				args := c.Common().Args
-				if len(args) == 4 {
-					if ld, isLd := args[2].(*ssa.UnOp); isLd && ld.Op == token.MUL && ld.X == ssa.Value(fn.Params[0]) {
-						ok = true
-					}
-				}
+		inits := fieldInits(fn, "buf", 0)
+		ok := len(inits) > 0
+		for _, v := range inits {
+			if ld, isLd := v.(*ssa.UnOp); !isLd || ld.Op != token.MUL || ld.X != ssa.Value(fn.Params[0]) {
+				ok = false
 			}
 		}
 		r.add("PUBLISH", shortName(fn), "call", "the writer starts from the target slice's current contents (*buf)", P.pos(fn.Pos()), ok, "")
-		flush := false
-		for _, b := range fn.Blocks {
-			for _, in := range b.Instrs {
-				if st, isSt := in.(*ssa.Store); isSt && st.Val == ssa.Value(fn.Params[0]) {
-					if fa2, isFA := st.Addr.(*ssa.FieldAddr); isFA {
-						if s, isS := deref(fa2.X.Type()).Underlying().(*types.Struct); isS && s.Field(fa2.Field).Name() == "flushBytes" {
-							flush = true
-						}
-					}
-				}
+		finits := fieldInits(fn, "flushBytes", 0)
+		flush := len(finits) > 0
+		for _, v := range finits {
+			if v != ssa.Value(fn.Params[0]) {
+				flush = false
 			}
 		}
 		r.add("PUBLISH", shortName(fn), "store", "the publication target is the caller's slice pointer", P.pos(fn.Pos()), flush, "")
@@ -526,3 +620,45 @@ func instrDominatesLoopExit(a ssa.Instruction, b ssa.Instruction) bool {
 }
 
 func init() { register("C05", "other", checkC05) }
+
+// fieldInits lists the values stored into a struct field named field by fn,
+// directly or through repository callees (a callee's parameter is translated to
+// the caller's argument), whatever the route: field stores, composite literals,
+// a reset-style helper.
+func fieldInits(fn *ssa.Function, field string, depth int) []ssa.Value {
+	var out []ssa.Value
+	if fn == nil || fn.Blocks == nil || depth > 2 {
+		return nil
+	}
+	for _, b := range fn.Blocks {
+		for _, in := range b.Instrs {
+			switch x := in.(type) {
+			case *ssa.Store:
+				if fa, ok := x.Addr.(*ssa.FieldAddr); ok {
+					if st, ok := deref(fa.X.Type()).Underlying().(*types.Struct); ok && st.Field(fa.Field).Name() == field {
+						out = append(out, x.Val)
+					}
+				}
+			case ssa.CallInstruction:
+				cal := x.Common().StaticCallee()
+				if cal == nil || !inRepo(cal) || cal == fn {
+					continue
+				}
+				for _, v := range fieldInits(cal, field, depth+1) {
+					if p, ok := v.(*ssa.Parameter); ok {
+						for i, cp := range cal.Params {
+							if cp == p && i < len(x.Common().Args) {
+								out = append(out, x.Common().Args[i])
+							}
+						}
+						continue
+					}
+					if _, isConst := v.(*ssa.Const); isConst {
+						out = append(out, v)
+					}
+				}
+			}
+		}
+	}
+	return out
+}
